@@ -63,8 +63,12 @@ def c02(nmax, statextra, strmax, fullhi):
                 runs.append({"harness": "vxH02Unpack", "args": [dotu, str(hi + 1), str(smin + extra + statextra), str(t), str(strmax)], "files": F, "reach": ["ok", "err"], "conc_cap": 200,
                              "bounds": f"every byte string of length {hi+1}..{smin+extra+statextra} with type byte {t} whose stat strings are each <= {strmax} bytes, dotu={dotu}"})
         dmin = 49 + (14 if dotu == "true" else 0)
-        runs.append({"harness": "vxH02Dir", "args": [dotu, "0", str(min(dmin + statextra, fullhi - 9))], "files": F, "reach": ["err"], "conc_cap": 200,
-                     "bounds": f"UnpackDir on every byte string of length 0..{min(dmin+statextra, fullhi-9)}, dotu={dotu}"})
+        dhi = min(dmin + statextra, fullhi - 9)
+        runs.append({"harness": "vxH02Dir", "args": [dotu, "0", str(dhi), "-1"], "files": F, "reach": ["err"], "conc_cap": 200,
+                     "bounds": f"UnpackDir on every byte string of length 0..{dhi}, dotu={dotu}"})
+        if dhi < dmin + statextra:
+            runs.append({"harness": "vxH02Dir", "args": [dotu, str(dhi + 1), str(dmin + statextra), str(strmax)], "files": F, "reach": ["ok", "err"], "conc_cap": 200,
+                         "bounds": f"UnpackDir on every byte string of length {dhi+1}..{dmin+statextra} whose strings are each <= {strmax} bytes, dotu={dotu}"})
     return runs
 w("C02", {
  "quick": c02(24, 3, 1, 62),
